@@ -748,7 +748,7 @@ func runC09() {
 			}
 			lit := b.String()
 			srcs = append(srcs, fmt.Sprintf(`S + "%s" + '%s' + "plain%d" + S2`, lit, strings.ReplaceAll(lit, "\\u00e9", "\\x41"), g),
-				fmt.Sprintf(`[%d.5e2, 0x%x, %d, "\\x4%d\\"q\\""][I - I] == "%s"`, g+1, 255+g, 1000+g, g, lit[:40]))
+				fmt.Sprintf(`[%d.5e2, 0x%x, %d][I - I] > 0 and S != "\t%d\\ \u00e9" + '%s'`, g+1, 255+g, 1000+g, g, lit[:60]))
 		}
 		digest := func(p *vm.Program) string { return fmt.Sprintf("%v|%#v", p.Bytecode, p.Constants) }
 		ok := true
